@@ -9,4 +9,7 @@ func init() {
 	reg.Register("cb-replay", func(a reg.Args) (interface{}, error) {
 		return cb.RunReplay(a.In, a.Out, a.Seed, a.Sample, a.Workers, a.Only)
 	})
+	reg.Register("cb-stress", func(a reg.Args) (interface{}, error) {
+		return cb.RunStress(a.Out, a.Seed, a.N, a.Workers)
+	})
 }
